@@ -487,6 +487,7 @@ func (e *Evaluator) evalIdentifier(
 	node *ast.Identifier,
 	env *object.Env,
 ) object.Object {
+	verifRead(env, node.Value)
 	if val, ok := env.Get(node.Value); ok {
 		return val
 	}
